@@ -15,7 +15,7 @@ RESN = ['ALA', 'GLY', 'LYS', 'TRP', 'SER', 'VAL']
 
 def make_world(rng, root, nspecies=None, ninst=(1, 12), order='random', box_kind='rect', with_solvent=True,
                with_vel=False, title=None, end_for=None, multi_res_prob=0.35, small_prob=0.3,
-               unique_grid=False, sizes_hint=None, resid_mode='consecutive', end_extra=None, counts=None):
+               unique_grid=False, sizes_hint=None, resid_mode='consecutive', end_extra=None, counts=None, coarsen=False):
     """Returns a dict describing the world (see keys below)."""
     os.makedirs(root, exist_ok=True)
     counts_in = counts
@@ -59,6 +59,10 @@ def make_world(rng, root, nspecies=None, ninst=(1, 12), order='random', box_kind
             atoms.append((nm, rn, rid))
         end['atoms'] = atoms
         end_species[name] = end
+    if coarsen:
+        # mapping towards the coarser resolution: the system holds the larger molecules, the end molecules are the smaller
+        # ones (down to a single bead)
+        species, end_species = end_species, species
     if with_solvent:
         species['W'] = sysgen.make_species(rng, 'W', [1], ['W'], prefix='W')
     names = [n for n in species if n != 'W']
@@ -91,7 +95,8 @@ def make_world(rng, root, nspecies=None, ninst=(1, 12), order='random', box_kind
     records, instances = sysgen.build_system(rng, species, seq, box=L, with_vel=with_vel,
                                              mode='unique-grid' if unique_grid else 'rigid+jitter',
                                              resid_start=int(rng.integers(1, 40)), resid_mode=resid_mode)
-    title = title if title is not None else ['generated world', 'Mixed system, t= 10.0', ' padded title '][int(rng.integers(0, 3))]
+    title = title if title is not None else ['generated world', 'Mixed system, t= 10.0', ' padded title ', 'l\u00edquido i\u00f3nico, 42.7 \u00c5',
+                                               '\u6c34 + \u03b1-helix'][int(rng.integers(0, 5))]
     sys_gro = os.path.join(root, 'system.gro')
     gen.write_gro(sys_gro, title, records, box)
     files = {}
